@@ -91,14 +91,16 @@ def keyPositions (n : Nat) (k : Key) : R (List Nat) :=
     let idx := is.map (normPos n)
     if idx.any Option.isNone then .error .indexError else pure (idx.filterMap id)
 
-/-- `rows[k] = v` for distinct target positions: a scalar goes to every target, an array is
-    matched to the targets in key order. Ragged values are refused and nothing is stored. -/
-def setItem (ty : List (String × String)) (rows : List (Row α)) (k : Key) (v : SetVal α) : R (List (Row α)) := do
-  let ps ← keyPositions rows.length k
-  if ps.isEmpty then return rows
-  let vals : List (Row α) := match v with
-    | .scalar r => List.replicate ps.length r
-    | .array rs => rs
+/-- the values offered: a scalar goes to every target -/
+def setVals (n : Nat) (v : SetVal α) : List (Row α) :=
+  match v with
+  | .scalar r => List.replicate n r
+  | .array rs => rs
+
+/-- `rows[p] = vals` for the non-empty target positions `ps` (in key order), values matched to the
+    targets in key order. Ragged values are refused and nothing is stored. -/
+def assignVals (ty : List (String × String)) (rows : List (Row α)) (ps : List Nat) (vals : List (Row α)) :
+    R (List (Row α)) := do
   if vals.length < ps.length then throw .indexError
   let conf := vals.map (conformRow ty)
   if (conf.take ps.length).any Option.isNone then throw .valueError
@@ -107,6 +109,15 @@ def setItem (ty : List (String × String)) (rows : List (Row α)) (k : Key) (v :
     match assign.find? (·.1 == i) with
     | some (_, r) => r
     | none => rows.getD i none)
+
+/-- `rows[p] = v` for the target positions `ps`; no target, no change. -/
+def assignAt (ty : List (String × String)) (rows : List (Row α)) (ps : List Nat) (v : SetVal α) : R (List (Row α)) :=
+  if ps.isEmpty then pure rows else assignVals ty rows ps (setVals ps.length v)
+
+/-- `rows[k] = v` for distinct target positions. -/
+def setItem (ty : List (String × String)) (rows : List (Row α)) (k : Key) (v : SetVal α) : R (List (Row α)) := do
+  let ps ← keyPositions rows.length k
+  assignAt ty rows ps v
 
 def concat (cs : List (List (Row α))) : List (Row α) := cs.flatten
 def dropna (rows : List (Row α)) : List (Row α) := rows.filter Option.isSome
